@@ -7,7 +7,7 @@ use neurons::tensor::{Data, Shape, Tensor};
 
 pub fn meta(_ctx: &Ctx) -> Meta {
     Meta {
-        rule: "ops {add,sub,mul,hadamard*scalar,div-by-scalar,mean over k=1..4} x ranks 1-D..4-D (nested lists for add/div) x all shapes with extents in {1,2,3} x operand valuations covering ALL 169 ordered pairs over V={0,-0,1,-1,0.1,3,-7.5,2^-149,1e-30,1e30,MAX,5,1e-5} (cycled through the elements with every offset) x scalars {1,0.5,2,-4,3,7,0.1,1e-39,3e38}; every ordered pair of different shapes of the lattice must be refused by add/sub/mul/hadamard/mean; product/dot/transpose on integer data; the free functions hadamard3d and pad3d on all CxHxW with extents <= 3; clamp over V x intervals incl. degenerate. Oracle: the single IEEE f32 operation per element, bit-exact. Non-trivial = case with >=2 elements or a shape-mismatch pair".into(),
+        rule: "ops {add,sub,mul,hadamard*scalar,div-by-scalar,mean over k=1..4} x ranks 1-D..4-D (nested lists for add/div) x all shapes with extents in {1,2,3} x operand valuations covering ALL 169 ordered pairs over V={0,-0,1,-1,0.1,3,-7.5,2^-149,1e-30,1e30,MAX,5,1e-5} (cycled through the elements with every offset) x scalars {1,0.5,2,-4,3,7,0.1,1e-39,3e38}; every ordered pair of different shapes of the lattice must be refused by add/sub/mul/hadamard/mean; product/dot/transpose on integer data (r,c <= 4, and 1x33, 33x1, 4x40, 64x10, 10x65, 100x100, 3x257); the element-wise operations also on a vector of 1000, 40x40, 3x65, 2x33x5, 3x3x17x2; the free functions hadamard3d and pad3d on all CxHxW with extents <= 3; clamp over V x intervals incl. degenerate. Oracle: the single IEEE f32 operation per element, bit-exact. Non-trivial = case with >=2 elements or a shape-mismatch pair".into(),
         bound: "extents <= 3 per axis, k <= 4; complete within the bound".into(),
         exhaustive: true,
         assumptions: vec!["hadamard: any association of a*b*scalar is accepted".into(), "mean: bit-exact on integer operands (exact sum, one rounding of the quotient); on general operands within the any-order summation bound eps*(k+2)*sum|x|/(k+1) of the f64 value".into()],
@@ -520,6 +520,20 @@ pub fn cases() -> Vec<Kv> {
                 }
             }
         }
+    }
+    // beyond the small bound: wide / tall / large matrices for dot, product, transpose; long vectors and large matrices
+    // for the element-wise operations
+    for (r, c) in [(1usize, 33usize), (33, 1), (4, 40), (64, 10), (10, 65), (100, 100), (3, 257)] {
+        out.push(Kv::new().put("op", "linalg").put("r", r).put("c", c).put("off", r + c));
+    }
+    for sh in [vec![1000usize], vec![33], vec![40, 40], vec![3, 65], vec![2, 33, 5], vec![3, 3, 17, 2]] {
+        for op in ["add", "sub", "mul"] {
+            out.push(Kv::new().put("op", op).put("shape", sname(&sh)).put("off", 7));
+        }
+        out.push(Kv::new().put("op", "hadamard").put("shape", sname(&sh)).put("off", 11).put("scalar", 3.0));
+        out.push(Kv::new().put("op", "div").put("shape", sname(&sh)).put("off", 13).put("scalar", 7.0));
+        out.push(Kv::new().put("op", "mean").put("shape", sname(&sh)).put("k", 3).put("off", 5).put("data", "int"));
+        out.push(Kv::new().put("op", "clamp").put("shape", sname(&sh)).put("off", 3).put("lo", -1.0).put("hi", 1.0));
     }
     for r in 1..=4 {
         for c in 1..=4 {
